@@ -1,1 +1,30 @@
-def main : IO Unit := IO.println "mdmodel"
+/-
+`mdmodel`: the executable model driver.  Reads requests from stdin, one per line, answers one line each.
+Handlers live in `Driver/*Ops.lean`, one file per model component; `handlers` lists them.
+-/
+import Driver.Handlers
+
+namespace Driver
+
+def answer (line : String) : String :=
+  match line.splitOn "\t" with
+  | [] => "?"
+  | op :: args =>
+    match handlers.findSome? (fun h => h op args) with
+    | some a => a
+    | none => "?"
+
+partial def loop (inp : IO.FS.Stream) (out : IO.FS.Stream) : IO Unit := do
+  let line ← inp.getLine
+  if line.isEmpty then return ()
+  let l := if line.endsWith "\n" then (line.dropEnd 1).toString else line
+  out.putStrLn (answer l)
+  loop inp out
+
+end Driver
+
+def main : IO Unit := do
+  let inp ← IO.getStdin
+  let out ← IO.getStdout
+  Driver.loop inp out
+  out.flush
